@@ -89,8 +89,11 @@ class SrcGen:
         elif k < 0.75:
             # assertion that may fail naturally when the effective guard is true
             self.emit(ind, "x0.assert_lt(x1 + %d)" % r.randint(-2, 3))
-        elif k < 0.85:
+        elif k < 0.82:
             self.emit(ind, "_.a = _.a + x0" if in_block else "t%d = abs(x2 - x0)" % self.fresh())
+        elif k < 0.86 and in_block:
+            # API misuse that the library reports when the region closes: a variable defined in one branch only
+            self.emit(ind, "_.z%d = x0" % self.fresh())
         else:
             self.emit(ind, "t%d = x0 / %d" % (self.fresh(), r.choice([1, 2, 3])))
 
@@ -138,7 +141,7 @@ class SrcGen:
             self.emit(ind + 1, "__leave(%d)" % rid)
         elif mech == "if":
             c, v = self.cond()
-            self.emit(ind, "__enter(%d, 'block', %d)" % (rid, conj(eff, v)))
+            self.emit(ind, "__enter(%d, 'block', %d, _)" % (rid, conj(eff, v)))
             self.emit(ind, "if _if(%s, ctx=_):" % c)
             self.emit(ind + 1, "__inside(%d, %d)" % (rid, conj(eff, v)))
             self.body(ind + 1, depth, conj(eff, v), True)
@@ -153,27 +156,33 @@ class SrcGen:
                 self.emit(ind, "if _else(ctx=_):")
                 self.emit(ind + 1, "__inside(%d, %d)" % (rid, conj(eff, rest)))
                 self.body(ind + 1, depth, conj(eff, rest), True)
-            self.emit(ind, "_endif(ctx=_)")
-            self.emit(ind, "__leave(%d)" % rid)
+            self.emit(ind, "try:")
+            self.emit(ind + 1, "_endif(ctx=_)")
+            self.emit(ind, "finally:")
+            self.emit(ind + 1, "__leave(%d, _)" % rid)
         elif mech == "while":
             c, v = self.cond()
             n = "n%d" % rid
             self.emit(ind, "%s = 0" % n)
-            self.emit(ind, "__enter(%d, 'block', %d)" % (rid, conj(eff, v)))
+            self.emit(ind, "__enter(%d, 'block', %d, _)" % (rid, conj(eff, v)))
             self.emit(ind, "while _while(%s, ctx=_) and %s < %d:" % (c, n, r.randint(1, 2)))
             self.emit(ind + 1, "%s += 1" % n)
             self.emit(ind + 1, "__inside(%d, %d)" % (rid, conj(eff, v)))
             self.body(ind + 1, depth, conj(eff, v), True)
-            self.emit(ind, "_endwhile(ctx=_)")
-            self.emit(ind, "__leave(%d)" % rid)
+            self.emit(ind, "try:")
+            self.emit(ind + 1, "_endwhile(ctx=_)")
+            self.emit(ind, "finally:")
+            self.emit(ind + 1, "__leave(%d, _)" % rid)
         else:
             stop = r.randint(0, 3)
-            self.emit(ind, "__enter(%d, 'block', -1)" % rid)
+            self.emit(ind, "__enter(%d, 'block', -1, _)" % rid)
             self.emit(ind, "for i%d in _range(PrivVal(%d), max=%d, ctx=_):" % (rid, stop, r.randint(2, 3)))
             self.emit(ind + 1, "__inside(%d, %d)" % (rid, conj(eff, -1)))
             self.body(ind + 1, depth, conj(eff, -1), True)
-            self.emit(ind, "_endfor(ctx=_)")
-            self.emit(ind, "__leave(%d)" % rid)
+            self.emit(ind, "try:")
+            self.emit(ind + 1, "_endfor(ctx=_)")
+            self.emit(ind, "finally:")
+            self.emit(ind + 1, "__leave(%d, _)" % rid)
 
     def program(self):
         r = self.rnd
@@ -275,8 +284,9 @@ class Monitor:
             self.problems.append(("constant-one-not-guard", "LinComb.ONE is not the active guard inside a region"))
 
     # probes called from the generated source
-    def enter(self, rid, kind, eff):
-        self.regions[rid] = dict(kind=kind, triple=self.triple(), eff=eff, depth=len(self.shadow))
+    def enter(self, rid, kind, eff, bv=None):
+        self.regions[rid] = dict(kind=kind, triple=self.triple(), eff=eff, depth=len(self.shadow),
+                                 ctxdepth=len(bv.stack) if bv is not None else None)
         if kind == "block":
             self.open_blocks += 1
 
@@ -294,10 +304,14 @@ class Monitor:
         elif rt.LinComb.ONE is not g:
             self.problems.append(("constant-one-not-guard", "inside region %d LinComb.ONE is not the guard" % rid))
 
-    def leave(self, rid):
-        ent = self.regions.pop(rid, None)
+    def leave(self, rid, bv=None):
+        ent = self.regions.get(rid)
         if ent is None:
             return
+        if ent["kind"] == "block" and bv is not None and len(bv.stack) > ent["ctxdepth"]:
+            # the closing call never ran (the exception arrived before it): the block is still open, not an end event
+            return
+        self.regions.pop(rid, None)
         if ent["kind"] == "block":
             self.open_blocks -= 1
         exc = sys.exc_info()[1] is not None
